@@ -8,6 +8,7 @@
 #include <amgcl/value_type/complex.hpp>
 #include <amgcl/value_type/static_matrix.hpp>
 #include <amgcl/detail/spgemm.hpp>
+#include <amgcl/adapter/block_matrix.hpp>
 #include "harness_main.hpp"
 
 const char *CHECK_ID = "C08";
@@ -15,8 +16,8 @@ using namespace cm;
 using hz::Plan; using hz::Result; using hz::Violation;
 namespace be = amgcl::backend;
 
-enum Kern { K_TRANSPOSE, K_PRODUCT, K_SUM, K_SCALE_SORT, K_DIAGONAL, K_POINTWISE, K_COPY, K_GERSHGORIN, K_POWER, K_COMPLEX, K_BLOCK, NKERN };
-static const char *kern_names[] = { "transpose", "product", "sum", "scale_sort_rows", "diagonal", "pointwise_matrix", "crs_copy_convert", "gershgorin", "power_method", "complex_kernels", "block_valued_kernels" };
+enum Kern { K_TRANSPOSE, K_PRODUCT, K_SUM, K_SCALE_SORT, K_DIAGONAL, K_POINTWISE, K_COPY, K_GERSHGORIN, K_POWER, K_COMPLEX, K_BLOCK, K_BLOCK_ADAPTER, NKERN };
+static const char *kern_names[] = { "transpose", "product", "sum", "scale_sort_rows", "diagonal", "pointwise_matrix", "crs_copy_convert", "gershgorin", "power_method", "complex_kernels", "block_valued_kernels", "block_matrix_adapter" };
 
 typedef std::map<std::pair<long,long>, double> Entries;
 template <class V, class C, class P> static Entries entries(const be::crs<V,C,P> &M) { Entries e; for (size_t i = 0; i < M.nrows; ++i) for (P j = M.ptr[i]; j < M.ptr[i+1]; ++j) e[std::make_pair((long)i, (long)M.col[j])] += (double)M.val[j]; return e; }
@@ -33,6 +34,28 @@ static std::string same_matrix(const Entries &got, const Entries &want, bool exa
 }
 template <class V, class C, class P> static bool has_duplicates(const be::crs<V,C,P> &M) { for (size_t i = 0; i < M.nrows; ++i) { std::set<long> s; for (P j = M.ptr[i]; j < M.ptr[i+1]; ++j) if (!s.insert((long)M.col[j]).second) return true; } return false; }
 template <class V, class C, class P> static bool rows_sorted(const be::crs<V,C,P> &M) { for (size_t i = 0; i < M.nrows; ++i) for (P j = M.ptr[i] + 1; j < M.ptr[i+1]; ++j) if (M.col[j] <= M.col[j-1]) return false; return true; }
+
+
+// block_matrix adapter (scalar CRS seen as b x b blocks) and unblock_matrix against the dense definition
+template <int BS>
+static void block_adapter_case(long n, long m, uint64_t ms, int density, Result &res, const std::function<Violation(const char*, const char*, const std::string&)> &sig) {
+    typedef amgcl::static_matrix<double, BS, BS> BV;
+    long nb = std::max<long>(1, n / BS + 1), mb = std::max<long>(1, m / BS + 1);
+    gen::Csr A = gen::make_rect(nb * BS, mb * BS, ms, density, true, false);      // rows sorted: the adapter merges BS sorted rows
+    auto M = to_crs(A);
+    be::crs<BV> B(amgcl::adapter::block_matrix<BV>(*M));
+    std::string wf = crs_wellformed(B, true); if (!wf.empty()) { res.fail(sig("wellformed", "block_matrix", wf)); return; }
+    if (B.nrows != (size_t)nb || B.ncols != (size_t)mb) res.fail(sig("dense-definition", "block_matrix-shape", fmt("%zu x %zu blocks, expected %ld x %ld", B.nrows, B.ncols, nb, mb)));
+    Entries a = entries(A), got; std::set<std::pair<long,long> > blocks_present, blocks_wanted;
+    for (Entries::iterator it = a.begin(); it != a.end(); ++it) blocks_wanted.insert(std::make_pair(it->first.first / BS, it->first.second / BS));
+    for (size_t ib = 0; ib < B.nrows; ++ib) for (ptrdiff_t j = B.ptr[ib]; j < B.ptr[ib+1]; ++j) { blocks_present.insert(std::make_pair((long)ib, (long)B.col[j])); for (int x = 0; x < BS; ++x) for (int y = 0; y < BS; ++y) if (B.val[j](x, y) != 0 || a.count(std::make_pair((long)ib * BS + x, (long)B.col[j] * BS + y))) got[std::make_pair((long)ib * BS + x, (long)B.col[j] * BS + y)] += B.val[j](x, y); }
+    std::string e = same_matrix(got, a, true); if (!e.empty()) res.fail(sig("dense-definition", "block_matrix-values", fmt("block size %d: %s", BS, e.c_str())));
+    if (blocks_present != blocks_wanted) res.fail(sig("dense-definition", "block_matrix-structure", fmt("block size %d: %zu blocks stored, %zu blocks contain an entry", BS, blocks_present.size(), blocks_wanted.size())));
+    auto U = amgcl::adapter::unblock_matrix(B);
+    wf = crs_wellformed(*U); if (!wf.empty()) { res.fail(sig("wellformed", "unblock_matrix", wf)); return; }
+    if (U->nrows != (size_t)(nb * BS) || U->ncols != (size_t)(mb * BS)) res.fail(sig("dense-definition", "unblock_matrix-shape", "wrong shape"));
+    e = same_matrix(entries(*U), a, true); if (!e.empty()) res.fail(sig("dense-definition", "unblock_matrix-values", fmt("block size %d: %s", BS, e.c_str())));
+}
 
 Plan generate(uint64_t seed, uint64_t run, bool thorough) {
     sim::rng r(seed, "world", run);
@@ -199,6 +222,10 @@ Result execute(const Plan &p) {
               bool okp = true; for (auto &e : gg) { auto w2 = wg.find(e.first); Cx wv = w2 == wg.end() ? Cx(0, 0) : w2->second; if (e.second != wv) { okp = false; res.fail(sig("dense-definition", "complex-product-values", fmt("(A A^H)(%ld,%ld) = %g%+gi, definition %g%+gi", e.first.first, e.first.second, e.second.real(), e.second.imag(), wv.real(), wv.imag()))); break; } }
               if (okp) for (auto &e : wg) if (e.second != Cx(0, 0) && !gg.count(e.first)) { res.fail(sig("dense-definition", "complex-product-values", fmt("entry (%ld,%ld) of the definition is missing", e.first.first, e.first.second))); break; } }
             for (size_t i = 0; i < G->nrows; ++i) for (ptrdiff_t j = G->ptr[i]; j < G->ptr[i+1]; ++j) if ((size_t)G->col[j] == i && (G->val[j].imag() != 0 || G->val[j].real() < 0)) { res.fail(sig("dense-definition", "complex-product", fmt("(A A^H)(%zu,%zu) = %g%+gi", i, i, G->val[j].real(), G->val[j].imag()))); i = G->nrows; break; }
+            break; }
+        case K_BLOCK_ADAPTER: {
+            std::function<Violation(const char*, const char*, const std::string&)> sg = sig;
+            if (p.get("bs") == 3) block_adapter_case<3>(n, m, ms, (int)p.get("density"), res, sg); else if (p.get("bs") == 4) block_adapter_case<4>(n, m, ms, (int)p.get("density"), res, sg); else block_adapter_case<2>(n, m, ms, (int)p.get("density"), res, sg);
             break; }
         case K_BLOCK: {
             // 2x2 block values: transpose (adjoint blocks), product, scaled Gershgorin bound in block norms
